@@ -143,6 +143,12 @@ CmdChecks(cmd) ==
             \* observations (never verdicts): a replacement no instance type of which can currently be launched
             \o (IF cv.nrepl >= 1 /\ \A i \in DOMAIN cv.opts : ~Launchable(cv.opts[i])
                 THEN <<V("Obs_C06_UnlaunchableReplacement", cmd.method)>> ELSE <<>>)
+            \* ... and a replacement of spot nodes only whose request could fall back to an on-demand launch that is not
+            \* cheaper (the statement forbids this for on-demand nodes only)
+            \o (IF cv.nrepl >= 1 /\ ~SomeOnDemand(cv)
+                   /\ \E i \in DOMAIN cv.opts : \E j \in OkOffs(cv.opts[i]) :
+                         cv.opts[i].offs[j].ct = OnDemand /\ LaunchCt(cv.opts[i]) # OnDemand /\ ~(cv.opts[i].offs[j].price < CandSum(cv))
+                THEN <<V("Obs_C06_SpotNodeOdFallback", cmd.method)>> ELSE <<>>)
 
 IsJudged(cmd) == cmd.method \in ConsolidationMethods /\ "sg" \in DOMAIN cmd
 
